@@ -443,6 +443,8 @@ class Interp:
     # -- driver
     def run(self):
         blocks = {b['id']: b for b in self.fn['blocks']}
+        self.backedges = set()
+        self.loop_exceeded = Cond.false()
         order = self._rpo(blocks)
         entry = self.fn['blocks'][0]['id']
         self.cond = {entry: Cond.true()}
@@ -490,6 +492,10 @@ class Interp:
             onstack.add(b)
             for s in self._succs(blocks[b]):
                 if s in onstack:
+                    if getattr(self, 'cut_loops', False):
+                        # peeled loop: the residual back edge is cut; the condition under which it would be taken is recorded (loop_exceeded)
+                        self.backedges.add((b, s))
+                        continue
                     raise Unsupported('loop')
                 if s not in seen:
                     dfs(s)
@@ -644,6 +650,9 @@ class Interp:
 
     def _add_edge(self, dest, c):
         k = (self.cur, dest)
+        if k in getattr(self, 'backedges', ()):
+            self.loop_exceeded = self.loop_exceeded.or_(c)
+            return
         if k in self.edges:
             c = self.edges[k].or_(c)
         if not c.is_false():
@@ -1176,9 +1185,10 @@ class Interp:
         raise Unsupported('intrinsic ' + name)
 
 
-def analyse(fn, argspec, argsize=None, x86=None):
+def analyse(fn, argspec, argsize=None, x86=None, cut_loops=False):
     it = Interp(fn, argspec, x86=x86)
     it.argsize = argsize or {}
+    it.cut_loops = cut_loops
     it.run()
     return it
 
